@@ -585,10 +585,17 @@ pub fn plan<'a>(ctx: &'a Ctx, rng: &mut Rng, tier: Tier) -> Plan<'a> {
         }
         "C16" => {
             let pools = pools_for(ctx, rng, tier, &[("meta", gen::META), ("clusters", gen::CLUSTERS), ("classy", gen::CLASSY)]);
-            let flags: Vec<u32> = vec![0, mask(&[BIT_DIGIT]), mask(&[BIT_WORD, BIT_NON_WORD]), mask(&[BIT_CI]), mask(&[BIT_SPACE, BIT_NON_SPACE, BIT_CAP]), mask(&[BIT_REP])];
+            // the printed pattern is the last stage: the presentation options take part, also together with -r (an edge label
+            // printed with the wrong options changes the language of the text and of nothing before it)
+            let flags: Vec<u32> = vec![0, mask(&[BIT_DIGIT]), mask(&[BIT_WORD, BIT_NON_WORD]), mask(&[BIT_CI]), mask(&[BIT_SPACE, BIT_NON_SPACE, BIT_CAP]), mask(&[BIT_REP]),
+                mask(&[BIT_REP, BIT_CAP]), mask(&[BIT_REP, BIT_VERB]), mask(&[BIT_REP, BIT_ESC, BIT_CAP]), mask(&[BIT_VERB, BIT_CAP]), mask(&[BIT_ESC])];
             let mut cases = cross_flags(rng, &pools.all(), &flags, 2);
             for t in gen::run_sets(rng, if quick { 6_000 } else { 120_000 }) {
-                let mut cfg = Cfg::new(mask(&[BIT_REP]));
+                let mut bits = mask(&[BIT_REP]);
+                if rng.chance(1, 3) { bits |= mask(&[BIT_CAP]); }
+                if rng.chance(1, 4) { bits |= mask(&[BIT_VERB]); }
+                if rng.chance(1, 4) { bits |= mask(&[BIT_ESC]); }
+                let mut cfg = Cfg::new(bits);
                 if rng.chance(1, 4) { cfg.min_rep = 1 + rng.below(2) as u32; cfg.min_len = 1 + rng.below(2) as u32; }
                 cases.push(Case { tcs: t, cfg });
             }
@@ -605,6 +612,9 @@ pub fn plan<'a>(ctx: &'a Ctx, rng: &mut Rng, tier: Tier) -> Plan<'a> {
                     }
                     if !c.cfg.has(BIT_REP) {
                         f.extend(judge::judge_exact(classes, c, b));
+                    } else {
+                        // with -r the text may accept more than the test cases (known finding D2); it must not lose one
+                        f.extend(judge::judge_sound(c, b));
                     }
                     f
                 }),
